@@ -241,6 +241,19 @@ func (m *MonWAL) MembersAt(i uint64) []uint64 {
 	return m.membersAt(i)
 }
 
+// ConfPending reports whether the durable log holds a membership change above index applied (raft refuses a new
+// membership change while one is unapplied).
+func (m *MonWAL) ConfPending(applied uint64) bool {
+	m.mu.Lock()
+	defer m.mu.Unlock()
+	for ix := range m.confEnts {
+		if ix > applied {
+			return true
+		}
+	}
+	return false
+}
+
 // RemovedInLog reports whether the durable log after the stored snapshot contains, at or below index upto, a removal of
 // node id that no later entry (up to upto) undoes: the member applied that removal from its log.
 func (m *MonWAL) RemovedInLog(id, upto uint64) bool {
@@ -466,8 +479,10 @@ const (
 // Link is the fault plan of one directed link: Down overrides the tape.
 type Link struct {
 	Down bool
-	Tape []int // cyclic decisions
-	pos  int
+	// DropApp: log replication (MsgApp / MsgSnap) is lost silently while everything else (heartbeats, votes) arrives
+	DropApp bool
+	Tape    []int // cyclic decisions
+	pos     int
 }
 
 // SentMsg is what the shim saw leaving a replica (on the sender's ready-loop goroutine).
@@ -516,9 +531,22 @@ func (n *Net) SetDown(from, to uint64, down bool) {
 	n.mu.Unlock()
 }
 
+// SetDropApp makes the link lose log replication only.
+func (n *Net) SetDropApp(from, to uint64, on bool) {
+	n.mu.Lock()
+	l := n.links[[2]uint64{from, to}]
+	if l == nil {
+		l = &Link{}
+		n.links[[2]uint64{from, to}] = l
+	}
+	l.DropApp = on
+	n.mu.Unlock()
+}
+
 func (n *Net) HealAll() {
 	n.mu.Lock()
 	for _, l := range n.links {
+		l.DropApp = false
 		l.Down = false
 		l.Tape = nil
 	}
@@ -557,6 +585,8 @@ func (s *shim) Receive(ctx context.Context, in *pb.RaftMessage, _ ...grpc.CallOp
 	if l != nil {
 		if l.Down {
 			dec = LinkDropError
+		} else if l.DropApp && (m.Type == raftpb.MsgApp || m.Type == raftpb.MsgSnap) {
+			dec = LinkDropSilent
 		} else if len(l.Tape) > 0 {
 			dec = l.Tape[l.pos%len(l.Tape)]
 			l.pos++
